@@ -68,17 +68,17 @@ SEP = [[[' '] * A for _ in range(A)], [['' if not needs_sep(LEX[i], LEX[j]) else
 TAIL = ['', '', ' ']
 
 
-def render(seq, pol):
+def render_body(seq, pol):
     out = []
     for k, t in enumerate(seq):
         if k:
             out.append(SEP[pol][seq[k - 1]][t])
         out.append(LEXP[pol][t])
-    return ''.join(out) + TAIL[pol]
+    return ''.join(out)
 
 
-def outcome_sig(text, o):
-    return o.sig
+def render(seq, pol):
+    return render_body(seq, pol) + TAIL[pol]
 
 
 # ------------------------------------------------------------------------------------------------------------
@@ -94,7 +94,7 @@ class Acc:
     def add(self, k, v=1):
         self.n[k] = self.n.get(k, 0) + v
 
-    def record(self, text, o, rank, origin):
+    def record(self, text, o, origin):
         self.add('evaluations')
         self.add(o.cls)
         self.sigs.add(o.sig)
@@ -107,7 +107,7 @@ class Acc:
         for key, what in o.viol:
             ent = self.viol.setdefault(key, [0, []])
             ent[0] += 1
-            ent[1].append((rank, text, what, origin() if callable(origin) else origin))
+            ent[1].append(((len(text), text), text, what, origin() if callable(origin) else origin))
             if len(ent[1]) > 6:
                 ent[1].sort()
                 del ent[1][3:]
@@ -126,19 +126,35 @@ class Acc:
             self.samples.extend(other.samples[:1])
 
 
+# Anti-vacuity conditions are judged after the violations have been reported: a tree that breaks the property on
+# nearly every input (nothing round-trips, so no extent is ever checked) must come out as VIOLATION, not as exit 2.
+UNMET = []
+
+
+def need(cond, msg):
+    if not cond:
+        UNMET.append(msg)
+
+
 # ---- part (a): token sequences ------------------------------------------------------------------------------
 CFG = {}
+CORE = ['id', 'number', 'string', 'not', 'in', 'if', 'endif', 'lparen', 'rparen', 'lbracket', 'rbracket', 'lcurl',
+        'rcurl', 'comma', 'colon', 'dot', 'plus', 'dash', 'assign', 'questionmark', 'eol']
 
 
 def subspace(k, n):
     """number of proper extensions (length k+1 .. n) of one prefix of length k"""
-    return sum(A ** j for j in range(1, n - k + 1))
+    a = len(CFG['toks'])
+    return sum(a ** j for j in range(1, n - k + 1))
 
 
 def tok_eval(acc, seq, pol, text, last_start):
     """evaluate one rendering; returns (alive, outcome)"""
     o = evaluate(text, True)
-    acc.record(text, o, (len(seq), tuple(seq), pol), lambda: 'tokens ' + ' '.join(NAMES[t] for t in seq) + ' / ' + POLNAMES[pol])
+    acc.record(text, o, lambda: 'tokens ' + ' '.join(NAMES[t] for t in seq) + ' / ' + POLNAMES[pol])
+    # dead: rejected while the lexer (suspended, so the error is the parser's) had not read past the start of the last
+    # token. The lexer is lazy, every lexeme of a realisable sequence is self-delimiting, the parser looks one token
+    # ahead: every extension repeats exactly this computation.
     dead = o.cls == 'reject' and o.cur_end is not None and o.cur_end <= last_start and o.lexer_suspended
     return (not dead), o
 
@@ -146,13 +162,13 @@ def tok_eval(acc, seq, pol, text, last_start):
 def validate_dead(acc, seq, pol, body, o, depth):
     """enumerate the pruned sub-space of a dead prefix anyway (up to `depth` more tokens): same verdict, same place"""
     def rec(s, b, d):
-        for t in range(A):
+        for t in CFG['toks']:
             if s[-1] == I_COMMENT and t != I_EOL:
                 continue
             s2 = s + [t]
             b2 = b + SEP[pol][s[-1]][t] + LEXP[pol][t]
             o2 = evaluate(b2 + TAIL[pol], False)
-            acc.record(b2 + TAIL[pol], o2, (len(s2), tuple(s2), pol), lambda: 'tokens(validation) ' + ' '.join(NAMES[x] for x in s2) + ' / ' + POLNAMES[pol])
+            acc.record(b2 + TAIL[pol], o2, lambda: 'tokens(validation) ' + ' '.join(NAMES[x] for x in s2) + ' / ' + POLNAMES[pol])
             acc.add('validated_extensions')
             if o2.cls != 'reject' or o2.errpos != o.errpos or o2.sig != o.sig:
                 acc.add('pruning_unsound')
@@ -164,102 +180,101 @@ def validate_dead(acc, seq, pol, body, o, depth):
 
 
 def explore_shard(prefix):
-    N, K, V, seed = CFG['N'], CFG['K'], CFG['V'], CFG['seed']
+    """all realisable sequences that extend `prefix` (itself included) up to length N, for every policy"""
+    N, K, V, seed, toks, pols = CFG['N'], CFG['K'], CFG['V'], CFG['seed'], CFG['toks'], CFG['pols']
     acc = Acc()
     prefix = list(prefix)
     if prefix[0] == I_COMMENT and prefix[1] != I_EOL:
-        acc.add('unrealisable_inputs', (1 + subspace(2, N)) * NPOL)
+        acc.add('unrealisable_inputs', (1 + subspace(2, N)) * len(pols))
         return acc
+
+    def died(seq, pol, body, o):
+        k = len(seq)
+        acc.add('dead_prefixes')
+        acc.add('dead_at_len_%d' % k)
+        if k < N:
+            acc.add('pruned_inputs', subspace(k, N))
+            if (zlib.crc32(bytes(seq) + bytes([pol])) + seed) % K == 0:
+                acc.add('validated_prefixes')
+                validate_dead(acc, seq, pol, body, o, min(V, N - k))
 
     def rec(seq, bodies, alive):
         # seq already evaluated; bodies[pol] = rendering without TAIL; extend by one token
         k = len(seq) + 1
-        for t in range(A):
+        for t in toks:
             if seq[-1] == I_COMMENT and t != I_EOL:
                 # not a token sequence: whatever follows a comment on its line is part of the comment
-                acc.add('unrealisable_inputs', (1 + subspace(k, N)) * sum(alive))
+                acc.add('unrealisable_inputs', (1 + subspace(k, N)) * len(alive))
                 continue
             s2 = seq + [t]
-            nb = [None] * NPOL
-            na = [False] * NPOL
-            for pol in range(NPOL):
-                if not alive[pol]:
-                    continue
+            nb = {}
+            for pol, body in alive.items():
                 sep = SEP[pol][seq[-1]][t]
-                nb[pol] = bodies[pol] + sep + LEXP[pol][t]
-                last_start = len(bodies[pol]) + len(sep)
-                na[pol], o = tok_eval(acc, s2, pol, nb[pol] + TAIL[pol], last_start)
-                if not na[pol]:
-                    acc.add('dead_prefixes')
-                    acc.add('dead_at_len_%d' % k)
-                    if k < N:
-                        acc.add('pruned_inputs', subspace(k, N))
-                        if (zlib.crc32(bytes(s2) + bytes([pol])) + seed) % K == 0:
-                            acc.add('validated_prefixes')
-                            validate_dead(acc, s2, pol, nb[pol], o, min(V, N - k))
-            if k < N and any(na):
-                rec(s2, nb, na)
+                b2 = body + sep + LEXP[pol][t]
+                ok, o = tok_eval(acc, s2, pol, b2 + TAIL[pol], len(body) + len(sep))
+                if ok:
+                    nb[pol] = b2
+                else:
+                    died(s2, pol, b2, o)
+            if k < N and nb:
+                rec(s2, nb, nb)
 
-    # the shard root itself (length len(prefix)); its ancestors were evaluated by the parent and cannot be dead
-    bodies = [None] * NPOL
-    alive = [False] * NPOL
-    for pol in range(NPOL):
-        body = render(prefix, pol)[:len(render(prefix, pol)) - len(TAIL[pol])] if TAIL[pol] else render(prefix, pol)
-        bodies[pol] = body
-        last_start = len(body) - len(LEXP[pol][prefix[-1]])
-        alive[pol], o = tok_eval(acc, prefix, pol, body + TAIL[pol], last_start)
-        if not alive[pol]:
-            acc.add('dead_prefixes')
-            acc.add('dead_at_len_%d' % len(prefix))
-            if len(prefix) < N:
-                acc.add('pruned_inputs', subspace(len(prefix), N))
-                if (zlib.crc32(bytes(prefix) + bytes([pol])) + seed) % K == 0:
-                    acc.add('validated_prefixes')
-                    validate_dead(acc, prefix, pol, body, o, min(V, N - len(prefix)))
-    if len(prefix) < N and any(alive):
-        rec(prefix, bodies, alive)
+    # the shard root itself; its ancestors (length 0, 1) were evaluated by the parent and cannot be dead
+    alive = {}
+    for pol in pols:
+        body = render_body(prefix, pol)
+        ok, o = tok_eval(acc, prefix, pol, body + TAIL[pol], len(body) - len(LEXP[pol][prefix[-1]]))
+        if ok:
+            alive[pol] = body
+        else:
+            died(prefix, pol, body, o)
+    if len(prefix) < N and alive:
+        rec(prefix, alive, alive)
     return acc
 
 
-def part_tokens(ck, total):
-    N = ck.q(4, 5)
-    N = int(os.environ.get('C02_DEPTH') or N)
-    K = ck.q(50, 400)
-    CFG.update(N=N, K=K, V=2, seed=ck.seed)
-    # self-check of the no-separator policy: the reference scanner must read every adjacent pair as two tokens
-    for i in range(A):
-        for j in range(A):
-            if i in (I_COMMENT,) and j != I_EOL:
-                continue            # a comment swallows the rest of its line: still a text, not the same tokens
-            t = LEX[i] + SEP[1][i][j] + LEX[j]
-            toks = [t[a:b] for k, a, b in cc.scan(t) if k != 'ws']
-            ck.require(toks == [LEX[i], LEX[j]], 'separator policy 1 merges %r %r -> %r' % (LEX[i], LEX[j], toks))
+def run_layer(ck, total, name, toknames, pols, N, K):
+    toks = [NAMES.index(x) for x in toknames]
+    CFG.update(N=N, K=K, V=2, seed=ck.seed, toks=toks, pols=pols)
     acc = Acc()
-    # lengths 0 and 1 in the parent
-    for pol in range(NPOL):
+    for pol in pols:                                  # lengths 0 and 1 in the parent
         o = evaluate(TAIL[pol], False)
-        acc.record(TAIL[pol], o, (0, (), pol), 'tokens <empty> / ' + POLNAMES[pol])
-        for t in range(A):
-            tok_eval(acc, [t], pol, render([t], pol), 0)
-    shards = [(i, j) for i in range(A) for j in range(A)]
+        acc.record(TAIL[pol], o, 'tokens <empty> / ' + POLNAMES[pol])
+        for t in toks:
+            tok_eval(acc, [t], pol, LEXP[pol][t] + TAIL[pol], 0)
+    shards = [(i, j) for i in toks for j in toks]
     for r in pmap(explore_shard, shards, chunksize=1):
         acc.merge(r)
     n = acc.n
-    space = sum(A ** j for j in range(0, N + 1)) * NPOL
-    ck.require(n.get('evaluations', 0) - n.get('validated_extensions', 0) + n.get('pruned_inputs', 0) + n.get('unrealisable_inputs', 0) == space,
-               'token space accounting: %d evaluated + %d pruned + %d unrealisable != %d' % (
-                   n.get('evaluations', 0) - n.get('validated_extensions', 0), n.get('pruned_inputs', 0), n.get('unrealisable_inputs', 0), space))
+    space = sum(len(toks) ** j for j in range(0, N + 1)) * len(pols)
+    covered = n.get('evaluations', 0) - n.get('validated_extensions', 0) + n.get('pruned_inputs', 0) + n.get('unrealisable_inputs', 0)
+    ck.require(covered == space, '%s space accounting: %d evaluated + %d pruned + %d unrealisable != %d' % (
+        name, n.get('evaluations', 0) - n.get('validated_extensions', 0), n.get('pruned_inputs', 0), n.get('unrealisable_inputs', 0), space))
     if n.get('pruning_unsound'):
-        print(json.dumps(acc.samples[:3], default=repr))
-        raise InternalError('prefix pruning argument refuted on %d extensions (see samples)' % n['pruning_unsound'])
-    ck.require(n.get('accept', 0) > 100 and n.get('reject', 0) > 100, 'both verdicts must occur')
-    ck.require(n.get('extents_checked', 0) > 100, 'no call/array extents were checked')
-    ck.require(n.get('dead_prefixes', 0) > 0 and n.get('validated_extensions', 0) > 0, 'pruning never applied / never validated')
-    ck.part('tokens', alphabet=A, max_len=N, policies=NPOL, space=space, pruning_validation_1_in_K=K,
+        need(False, 'prefix pruning argument refuted on %d extensions: %s' % (n['pruning_unsound'], json.dumps(acc.samples[:2], default=repr)))
+    need(n.get('accept', 0) > 100 and n.get('reject', 0) > 100, name + ': both verdicts must occur')
+    need(n.get('extents_checked', 0) > 100, name + ': no call/array extents were checked')
+    need(n.get('dead_prefixes', 0) > 0 and n.get('validated_extensions', 0) > 0, name + ': pruning never applied / never validated')
+    ck.part(name, alphabet=len(toks), max_len=N, policies=[POLNAMES[p] for p in pols], space=space, pruning_validation_1_in_K=K,
             pruning_validation_extra_depth=2, **{k: v for k, v in sorted(n.items())})
-    ck.sample({'tokens': 'id lparen lbracket number rbracket rparen', 'texts': [render([0, 18, 20, 1, 21, 19], p) for p in range(NPOL)]})
     total.merge(acc)
-    return N
+
+
+def part_tokens(ck, total):
+    # self-check of the no-separator policy: the reference scanner must read every adjacent pair as two tokens
+    for i in range(A):
+        for j in range(A):
+            if i == I_COMMENT and j != I_EOL:
+                continue            # unrealisable (excluded from the space)
+            t = LEX[i] + SEP[1][i][j] + LEX[j]
+            toks = [t[a:b] for k, a, b in cc.scan(t) if k != 'ws']
+            ck.require(toks == [LEX[i], LEX[j]], 'separator policy 1 merges %r %r -> %r' % (LEX[i], LEX[j], toks))
+    N = int(os.environ.get('C02_DEPTH') or ck.q(4, 5))
+    N2 = int(os.environ.get('C02_CORE_DEPTH') or ck.q(5, 6))
+    run_layer(ck, total, 'tokens_full', NAMES, [0, 1, 2], N, ck.q(50, 400))
+    run_layer(ck, total, 'tokens_core', CORE, [0], N2, ck.q(50, 400))
+    ck.sample({'tokens': 'id lparen lbracket number rbracket rparen', 'texts': [render([0, 18, 20, 1, 21, 19], p) for p in range(NPOL)]})
+    return N, N2
 
 
 # ---- part (b): corpus -----------------------------------------------------------------------------------------
@@ -332,7 +347,7 @@ def corpus_file_job(path):
         acc.add('files_not_utf8')
         return acc, None, 0
     o = evaluate(text, False)
-    acc.record(text, o, (len(text), rel), 'corpus ' + rel)
+    acc.record(text, o, 'corpus ' + rel)
     acc.add('files_' + o.cls)
     ntok = len(slots(text)[0])
     return acc, text, ntok
@@ -348,7 +363,7 @@ def neighbourhood_job(item):
             continue
         seen.add(t2)
         o = evaluate(t2, False)
-        acc.record(t2, o, (len(t2), rel, what), lambda: 'corpus-edit %s: %s' % (rel, what))
+        acc.record(t2, o, lambda: 'corpus-edit %s: %s' % (rel, what))
         acc.add('edits')
     return acc
 
@@ -366,9 +381,10 @@ def part_corpus(ck, total):
     acc2 = Acc()
     for a in pmap(neighbourhood_job, items, chunksize=4):
         acc2.merge(a)
-    ck.require(len(files) > 1000 and acc.n.get('files_accept', 0) > 1000, 'corpus not found under %s' % REPO)
-    ck.require(acc2.n.get('edits', 0) > 10000 and acc2.n.get('accept', 0) > 0 and acc2.n.get('reject', 0) > 0,
-               'edit neighbourhood empty or one-sided')
+    ck.require(len(files) > 1000, 'corpus not found under %s' % REPO)
+    need(acc.n.get('files_accept', 0) > 1000 and acc.n.get('extents_checked', 0) > 1000, 'corpus: hardly any file accepted / extent-checked')
+    need(acc2.n.get('edits', 0) > 10000 and acc2.n.get('accept', 0) > 0 and acc2.n.get('reject', 0) > 0,
+         'edit neighbourhood empty or one-sided')
     ck.part('corpus_files', files=len(files), **{k: v for k, v in sorted(acc.n.items())})
     ck.part('corpus_edits', max_tokens=T_, distinct_files_expanded=len(items), **{k: v for k, v in sorted(acc2.n.items())})
     if items:
@@ -425,7 +441,7 @@ def chars_job(first):
         for pre, post in FRAMES:
             t = pre + s + post
             o = evaluate(t, False)
-            acc.record(t, o, (len(t), t), lambda: 'chars %r in frame %r' % (s, (pre, post)))
+            acc.record(t, o, lambda: 'chars %r in frame %r' % (s, (pre, post)))
     return acc
 
 
@@ -434,12 +450,12 @@ def part_chars(ck, total):
     CFG['L'] = L
     acc = Acc()
     o = evaluate('', False)
-    acc.record('', o, (0, ''), 'chars <empty>')
+    acc.record('', o, 'chars <empty>')
     for a in pmap(chars_job, CHARS, chunksize=1):
         acc.merge(a)
     nstr = sum(len(CHARS) ** j for j in range(1, L + 1))
     ck.require(acc.n.get('lexer_runs') == nstr, 'character space accounting')
-    ck.require(acc.n.get('lexer_accept', 0) > 0 and acc.n.get('lexer_reject', 0) > 0, 'lexer verdicts one-sided')
+    need(acc.n.get('lexer_accept', 0) > 0 and acc.n.get('lexer_reject', 0) > 0, 'lexer verdicts one-sided')
     ck.part('chars', charset=''.join(CHARS).encode('unicode_escape').decode(), max_len=L, strings=nstr, frames=len(FRAMES),
             **{k: v for k, v in sorted(acc.n.items())})
     total.merge(acc)
@@ -468,14 +484,16 @@ def main():
     if ck.args.replay:
         return replay(ck)
     total = Acc()
-    N = T_ = L = None
+    N = N2 = T_ = L = None
     if ck.want('chars'):
         L = part_chars(ck, total)
     if ck.want('corpus'):
         T_ = part_corpus(ck, total)
     if ck.want('tokens'):
-        N = part_tokens(ck, total)
+        N, N2 = part_tokens(ck, total)
     report(ck, total)
+    if UNMET and not ck.n_viol:
+        ck.internal('vacuity/self-check failed: ' + '; '.join(UNMET))
     for s in total.samples[:2]:
         ck.sample(s)
     ck.assume('a position "inside the text" is 1 <= line <= number of lines (a trailing newline opens one more, empty, line) and '
@@ -490,11 +508,12 @@ def main():
               skipped_unspecified=total.n.get('skipped_unspecified', 0),
               accepted=total.n.get('accept', 0), rejected=total.n.get('reject', 0), crashed=total.n.get('crash', 0),
               extents_checked=total.n.get('extents_checked', 0), pruned_inputs=total.n.get('pruned_inputs', 0),
-              rule='tokens: every sequence of length <= %s over %d tokens x %d separator policies (pruned extensions of dead '
-                   'prefixes counted in pruned_inputs; re-validated 1-in-K); corpus: every build/options file under the repo + '
+              rule='tokens: every realisable sequence (no token after a comment on its line) of length <= %s over %d tokens x %d '
+                   'separator policies, and of length <= %s over a %d-token core alphabet with single spaces (extensions of dead '
+                   'prefixes are not run: counted in pruned_inputs, argument re-validated 1-in-K); corpus: every build/options file under the repo + '
                    'every single token edit of each distinct file of <= %s tokens; chars: every string of length <= %s over %d '
                    'characters alone and in %d frames. distinct_nontrivial = distinct outcome signatures (exception type + '
-                   'message head for rejects, first three top-level node types for accepts)' % (N, A, NPOL, T_, L, len(CHARS), len(FRAMES)),
+                   'message head for rejects, first three top-level node types for accepts)' % (N, A, NPOL, N2, len(CORE), T_, L, len(CHARS), len(FRAMES)),
               exhaustive=True)
 
 
